@@ -441,6 +441,9 @@ def run(cx, tier='quick'):
     rep.assumptions += ['a borrow of a place expression `self.f` has the address of field f', 'match ergonomics: binding through &self / &mut self yields & / &mut to the field']
     from .binders import check_binder_injectivity
     check_binder_injectivity(cx, rep, ['::deref::', '::deref_mut::'])
+    from .c13 import include_own_parsers as _iop
+    from ..facts import Facts as _Fp
+    _iop(cx, _Fp(cx), rep, ['::deref::', '::deref_mut::'])
     return rep
 
 
